@@ -26,7 +26,7 @@ func init() {
 	register(&Rule{ID: "C17.errors", Floor: 4, Also: []string{"C01", "C04"},
 		Text: "Errors.SetOSType, evaluated for every OSType constant, assigns every field of avfs.Errors on every path; the Windows branch only WindowsError values (bar the documented TooManySymlinks), every other branch the LinuxError of the field's meaning",
 		Run:  c17Errors})
-	register(&Rule{ID: "C17.ctor", Floor: 3, Also: []string{"C01", "C02"},
+	register(&Rule{ID: "C17.ctor", Floor: 5, Also: []string{"C01", "C02"},
 		Text: "the constructors of MemFS, OrefaFS and MemIdm select the error table from the object's own OSType() after SetOSType, and set the Windows defaults (volumes, modes, separator-dependent working directory) only under an OSType()==OsWindows test on the object",
 		Run:  c17Ctor})
 	register(&Rule{ID: "C17.hostfree", Floor: 150,
@@ -378,6 +378,125 @@ func c17Ctor(rc *RuleCtx) {
 		} else {
 			rc.good(cons, f.Pos(), "SetOSType precedes the selection of the error table from the object's own OSType(); Windows defaults are guarded")
 		}
+		if pk != "memidm" {
+			c17CtorVolume(rc, pk, f)
+		}
+	}
+}
+
+// underWindowsTest: the block is reached only when OSType()==OsWindows was established.
+func underWindowsTest(b *ssa.BasicBlock) bool {
+	for _, fct := range factsAt(b) {
+		v, truth := normCond(fct.Cond, fct.Truth)
+		if bo, isB := v.(*ssa.BinOp); isB && bo.Op == token.EQL && truth && isCallNamed(bo.X, "OSType") {
+			if k, isC := constInt(bo.Y); isC && k == 2 {
+				return true
+			}
+		}
+	}
+	return false
+}
+
+// c17CtorVolume: the name under which the constructor registers the root directory, and the volume it hands to
+// SystemDirs, is the default volume exactly when the object is Windows-typed and the empty name otherwise.
+func c17CtorVolume(rc *RuleCtx, pk string, f *ssa.Function) {
+	cons := pk + ".NewWithOptions volume"
+	def := ""
+	if o, ok := rc.C.pkg("avfs").Types.Scope().Lookup("DefaultVolume").(*types.Const); ok && o.Val().Kind() == constant.String {
+		def = constant.StringVal(o.Val())
+	}
+	if def == "" {
+		rc.anchor(cons + " (avfs.DefaultVolume)")
+		return
+	}
+	strOf := func(v ssa.Value) (string, bool) {
+		if c, ok := v.(*ssa.Const); ok && c.Value != nil && c.Value.Kind() == constant.String {
+			return constant.StringVal(c.Value), true
+		}
+		return "", false
+	}
+	// follows the OS type: the default volume under the Windows test, the empty name on the other way in
+	follows := func(v ssa.Value, at *ssa.BasicBlock) string {
+		if s, ok := strOf(v); ok {
+			if s == def && underWindowsTest(at) {
+				return ""
+			}
+			return fmt.Sprintf("is the constant %q whatever the OS type of the object", s)
+		}
+		ph, ok := v.(*ssa.Phi)
+		if !ok {
+			return "is not selected by the OsWindows test of the constructor"
+		}
+		win, other := 0, 0
+		for i, e := range ph.Edges {
+			s, ok := strOf(e)
+			switch {
+			case ok && s == def && underWindowsTest(ph.Block().Preds[i]):
+				win++
+			case ok && s == "" && !underWindowsTest(ph.Block().Preds[i]):
+				other++
+			default:
+				return "is not the default volume on the Windows side and the empty name on the other"
+			}
+		}
+		if win == 0 || other == 0 {
+			return "does not depend on the OS type of the object"
+		}
+		return ""
+	}
+	n := 0
+	bad := ""
+	var at token.Pos = f.Pos()
+	eachInstr(f, func(in ssa.Instruction) {
+		if bad != "" {
+			return
+		}
+		switch x := in.(type) {
+		case *ssa.MapUpdate:
+			fa := ""
+			if u, ok := x.Map.(*ssa.UnOp); ok {
+				if a, ok := u.X.(*ssa.FieldAddr); ok {
+					fa = fieldName(a.X.Type(), a.Field)
+				}
+			} else if mm, ok := x.Map.(*ssa.MakeMap); ok {
+				// the map is stored into the field afterwards
+				for _, r := range *mm.Referrers() {
+					if st, ok := r.(*ssa.Store); ok {
+						if a, ok := st.Addr.(*ssa.FieldAddr); ok {
+							fa = fieldName(a.X.Type(), a.Field)
+						}
+					}
+				}
+			}
+			if fa != "nodes" && fa != "volumes" {
+				return
+			}
+			n++
+			if why := follows(x.Key, x.Block()); why != "" {
+				bad, at = "the name under which the root directory is registered in "+fa+" "+why, x.Pos()
+			}
+		case ssa.CallInstruction:
+			fn := calleeFunc(x)
+			if fn == nil || fn.Name() != "SystemDirs" {
+				return
+			}
+			a := callArgs(x)
+			if len(a) < 2 {
+				return
+			}
+			n++
+			if why := follows(a[len(a)-1], in.Block()); why != "" {
+				bad, at = "the volume handed to SystemDirs "+why, in.Pos()
+			}
+		}
+	})
+	switch {
+	case bad == "" && n < 2:
+		rc.bad(cons, f.Pos(), "the constructor no longer registers the root directory in the index and asks SystemDirs for the directories of that volume")
+	case bad != "":
+		rc.bad(cons, at, bad+": a Windows-typed file system has no root directory where its paths look for it (every call on its own volume fails), whatever the host")
+	default:
+		rc.good(cons, f.Pos(), fmt.Sprintf("%d uses of the volume name: the default volume under the OsWindows test, the empty name otherwise", n))
 	}
 }
 
